@@ -1,7 +1,7 @@
 #!/bin/sh
 # usage: PFX=seed2 TIER=quick tools/seed_checks.sh <Cxx> <mN> [checks] — apply the seeded patch in the evaluation worktree /tmp/evalwt and run checks against it
 cd "$(dirname "$0")/.." || exit 2
-P=$1; M=$2; shift 2; CHECKS=${*:-$P}; PFX=${PFX:-seed}; OUT=/tmp/${PFX}_${P}_out/$M; WT=/tmp/evalwt
+P=$1; M=$2; shift 2; CHECKS=${*:-$P}; PFX=${PFX:-seed}; OUT=/tmp/${PFX}_${P}_out/$M; WT=${EVALWT:-/tmp/evalwt}
 [ -d $WT ] || git -C /repo worktree add -q --detach $WT main
 git -C $WT checkout -q -- . ; git -C $WT checkout -q --detach main; git -C $WT apply $OUT/patch.diff || { echo "SEEDCHK $P/$M patch does not apply"; exit 2; }
 cp -n /repo/ethosu/mlw_codec.cpython-312-x86_64-linux-gnu.so $WT/ethosu/ 2>/dev/null
